@@ -124,10 +124,18 @@ CLAIMED = {
    text="TLC explores every history of up to 4 uses over JSON-carried and bytes-like types and three encoder configurations with the codec() cache as state and checks agreement of the entry points, absence of cross-talk between configurations and verbatim carriage of bytes-like types (and shows a key without the coders, or top-level functions that always run the encoder, violating it). On the real code every str-keyed non-ambiguous type of the TLC universe (plus bytes/bytearray) is encoded and decoded through Codec methods, the top-level functions and the explicit composition under default -> stdlib json -> tagging codec -> default without clearing caches; TLC requires identical results, bytes equal to encoder(marshal(v)), the standard json module parsing them to exactly marshal(v), and decode(encode(v)) = v.",
    ref="DESIGN.md section 4 C02",
    note="Trusted: TLC; stdlib json as independent parser; term projection. Ambiguous-union types are outside (C01 weak law)."),
+ "C12": dict(
+   engine="Caches",
+   technique="TLA+ spec Caches.tla (memo layers keyed by equality class vs observable detail, shared mutable results, clear) explored exhaustively by TLC; every abstract history instantiated in 13 families of colliding arguments, run warm in a fresh fork and compared call by call with the same call in a cold fork, validated by TLC trace spec Caches_Trace.tla",
+   level="model_checking",
+   text="TLC enumerates every operation history up to the bound over calls with arguments [equality class, detail], deep mutation of an earlier call's result and input, and cache clearing, and checks history-freedom of the reference memo (and that a detail-blind key or a shared result object violates it). Each emitted history is instantiated in 13 concrete families (union member orders at root and nested, equal instants with different offsets, text carriers, bare containers, 1/1.0/True, same-named classes, string references from two modules, recursive types, codec configurations, dateparse targets), executed in a fresh fork, and every call's outcome is compared by TLC with the outcome of the same call alone in another fresh fork of a zygote that never called the library; inputs must stay unmutated and earlier results unaffected.",
+   ref="DESIGN.md section 4 C12",
+   note="Trusted: TLC; os.fork of a zygote as 'cold process'; term projection. Histories of length 4 (quick, 220 sampled per family) / 5 (thorough, all)."),
 }
 NOT_BUILT = "check not built yet (build in progress; see DESIGN.md section 7 build order)"
 
 ENGINES = {
+ "Caches": dict(path="spec/Caches.tla", kind="TLA+ spec + TLC (exhaustive histories, emission, trace validation) + harness/zygote.py + harness/drivers/c12.py"),
  "Codec": dict(path="spec/Codec.tla", kind="TLA+ spec + TLC (exhaustive histories, trace validation) + harness/drivers/c02.py"),
  "Carriers": dict(path="spec/Carriers.tla", kind="TLA+ spec + TLC (exhaustive histories, trace validation) + harness/drivers/c14.py"),
  "Member": dict(path="spec/Member_Trace.tla", kind="TLA+ trace spec over Terms/Wire + harness/drivers c05 c07 c11 c15"),
